@@ -1,12 +1,16 @@
 package seq
 
 import (
+	"context"
 	"encoding/json"
 	"fmt"
 	"sort"
 	"strings"
 
 	"github.com/herohde/morlock/pkg/board"
+	"github.com/herohde/morlock/pkg/engine"
+	"github.com/herohde/morlock/pkg/eval"
+	"github.com/herohde/morlock/pkg/search"
 	"verif/bridge"
 	"verif/corpus"
 	"verif/harness"
@@ -15,6 +19,14 @@ import (
 
 func init() {
 	Checks["C01"] = checkC01
+	Replayers["C01/engine"] = func(data json.RawMessage) (bool, string) {
+		var d []string
+		if json.Unmarshal(data, &d) != nil || len(d) != 2 {
+			return false, "bad replay data"
+		}
+		_, msg := engineTriple(d[0], d[1])
+		return msg != "", msg
+	}
 	Replayers["C01/moves"] = func(data json.RawMessage) (bool, string) {
 		var f string
 		_ = json.Unmarshal(data, &f)
@@ -134,9 +146,37 @@ func shapeOf(p *ref.Pos) string {
 	return fmt.Sprint(ks, p.InCheck(p.White))
 }
 
+// engineTriple: Engine.Move(text) on an engine set up with f accepts exactly the legal triples and
+// then reaches the reference successor.
+func engineTriple(f, text string) (cls, msg string) {
+	ctx := context.Background()
+	e := engine.New(ctx, "verif", "verif", search.AlphaBeta{Eval: search.Leaf{Eval: eval.Material{}}}, engine.WithOptions(engine.Options{Hash: 0}))
+	if err := e.Reset(ctx, f); err != nil {
+		return "", "" // not a position an engine can be set up with (C14/C19 deal with that)
+	}
+	g, gerr := ref.GameFromFEN(f)
+	if gerr != nil {
+		return "", ""
+	}
+	rm, ok := g.Cur().FindMove(text)
+	err := e.Move(ctx, text)
+	switch {
+	case ok && err != nil:
+		return "engine-rejects", fmt.Sprintf("the engine rejects the legal move %s at %s: %v", text, f, err)
+	case !ok && err == nil:
+		return "engine-accepts", fmt.Sprintf("the engine accepts %q at %s, which is not a legal (origin, destination, promotion) triple there", text, f)
+	case ok:
+		g.Push(rm)
+		if got, want := e.Position(), g.FEN(); got != want {
+			return "engine-plays", fmt.Sprintf("asked to play %s at %s the engine reaches %q; that move leads to %q", text, f, got, want)
+		}
+	}
+	return "", ""
+}
+
 func checkC01(c *harness.Check) {
 	mustAnchors(c)
-	c.Rule = "lock-step BFS closure from tagged seeds (de-duplicated on position value) + completely enumerated families (K+X v K, castling under one attacker, en passant x king x slider, corner pieces with rights, promotion fronts, collinear pins); every node: {filtered PseudoLegalMoves} and LegalMoves vs reference legal set incl. kind/piece/capture, no duplicates; distinct_nontrivial = nodes with >=1 legal move counted by distinct (set of move kinds, in-check) class x seed"
+	c.Rule = "lock-step BFS closure from tagged seeds (de-duplicated on position value) + completely enumerated families (K+X v K, castling under one attacker, en passant x king x slider, corner pieces with rights, promotion fronts, collinear pins); every node: {filtered PseudoLegalMoves} and LegalMoves vs reference legal set incl. kind/piece/capture, no duplicates; the same at the engine's door (Engine.Move with text: every origin/destination pair of a legal move x every promotion suffix on the promotion, corner and en-passant families - accepted exactly when legal, and then the game is the reference successor); distinct_nontrivial = nodes with >=1 legal move counted by distinct (set of move kinds, in-check) class x seed"
 	visit := func(n *Node) {
 		c.Evaluations.Add(1)
 		c.Traces.Add(1)
@@ -162,6 +202,31 @@ func checkC01(c *harness.Check) {
 	WalkFlat(c, corpus.PinFamily, visit, nil)
 	WalkFlat(c, corpus.BackRankFamily, classify, nil)
 	c.Sample(map[string]any{"family": "castling-under-attack", "example": "r3k2r/8/8/8/8/8/6n1/R3K2R w KQ - 0 1"})
+
+	// what an ENGINE treats as legal: a move arrives as text (origin, destination, promotion letter)
+	// and Engine.Move matches it against the generated moves. For every node of the promotion,
+	// corner (castling) and en-passant families, every origin/destination pair of a legal move with
+	// every promotion suffix: accepted exactly when that triple is a legal move, and then the
+	// engine's game is the reference successor of exactly that move.
+	var ecc classCap
+	engineVisit := func(n *Node) {
+		f := n.Ref.FEN(0, 1)
+		pairs := map[string]bool{}
+		for _, rm := range n.Ref.Legal() {
+			pairs[rm.String()[:4]] = true
+		}
+		for pair := range pairs {
+			for _, suffix := range []string{"", "q", "r", "b", "n"} {
+				c.Evaluations.Add(1)
+				if cls, msg := engineTriple(f, pair+suffix); msg != "" {
+					c.Violation(ecc.sig("C01/"+cls, f+" "+pair+suffix), msg, "C01/engine", []string{f, pair + suffix})
+				}
+			}
+		}
+	}
+	WalkFlat(c, corpus.PromotionFamily, engineVisit, nil)
+	WalkFlat(c, corpus.CornerFamily, engineVisit, nil)
+	WalkFlat(c, func(e func(*ref.Pos)) { corpus.EnPassantFamily(false, e) }, engineVisit, nil)
 
 	// implementation perft against the published numbers
 	type job struct {
